@@ -1,7 +1,229 @@
-(* C14 - placeholder while the proofs are being written *)
-From Coq Require Import Arith List.
-From ScV Require Import C14.ShmemModel.
+(* C14 - shared arrays and node communicators: every rank sees the same correct array
+   (src/sc_shmem.c, sc_mpi_comm_attach_node_comms / detach / get_node_comms of src/sc_mpi.c).
+   Statements about the executable model coq/C14/ShmemModel.v, which checks/C14.py ties to the compiled code running
+   on the simulated MPI (views of every array on every rank, grid positions, write_start grants, and the per-rank
+   sequence of MPI calls of every operation).  This file contains only statements, `exact` proofs and
+   Print Assumptions.
+
+   Vocabulary:  P ranks; a node partition is a colouring nd : rank -> node.
+     members P nd c            the ranks of colour c in ascending order (what MPI_Comm_split yields for these keys)
+     attach_explicit P ppn r   the (intranode, internode) member lists rank r gets for processes_per_node = ppn
+     attach_split_type P nd r  the same when MPI_Comm_split_type reports the classes nd (None if sizes differ)
+     comms_explicit nn ppn     r |-> Some (attach_explicit (nn*ppn) ppn r);   comms_none: nothing attached
+     grid_position nc r        (intranode rank, intranode size, internode rank, internode size)
+     shmem_allgather / shmem_prefix / shmem_memcpy ... r   the array AS READ BY RANK r afterwards
+     rank_order P c = c 0 ++ ... ++ c (P-1);   prefix_spec wr P n c = (0, s0, s0+s1, ...) with every sum wrapped by wr
+     write_start comms f r     return value of sc_shmem_write_start on rank r
+     pstep / prun              the lock/barrier protocol of the window flavours on one node, one event at a time *)
+From Coq Require Import ZArith Arith List Bool Sorting.Sorted.
+From ScV Require Import Base.CInt C14.ShmemModel C14.GridProofs C14.ShmemProofs C14.ProtocolProofs.
 Import ListNotations.
-Theorem C14_grid_example : grid_position (attach_explicit 6 2 3) 3 = (1, 2, 1, 3).
+
+(* ---- the node grid: explicit processes per node, P = nn * ppn ---------------------------------------------------- *)
+(* every rank sits at (offset, node) = (r mod ppn, r / ppn); the communicators have sizes ppn and nn *)
+Theorem C14_grid_position : forall nn ppn, 0 < ppn -> forall r, r < nn * ppn ->
+  grid_position (attach_explicit (nn * ppn) ppn r) r = (r mod ppn, ppn, r / ppn, nn).
+Proof. exact explicit_grid_position. Qed.
+Print Assumptions C14_grid_position.
+
+(* complete grid: every cell (node k, offset j) holds exactly one rank *)
+Theorem C14_grid_complete : forall nn ppn, 0 < ppn -> forall k j, k < nn -> j < ppn ->
+  exists r, r < nn * ppn /\ r / ppn = k /\ r mod ppn = j /\
+            (forall r', r' < nn * ppn -> r' / ppn = k -> r' mod ppn = j -> r' = r).
+Proof. exact explicit_grid_complete. Qed.
+Print Assumptions C14_grid_complete.
+
+(* each rank lies in exactly one row (its node) and one column (its offset) *)
+Theorem C14_grid_row_col : forall nn ppn, 0 < ppn -> forall r q, r < nn * ppn -> q < nn * ppn ->
+  (In q (intra (attach_explicit (nn * ppn) ppn r)) <-> q / ppn = r / ppn) /\
+  (In q (inter (attach_explicit (nn * ppn) ppn r)) <-> q mod ppn = r mod ppn).
+Proof. exact explicit_row_col. Qed.
+Print Assumptions C14_grid_row_col.
+
+(* the member lists are in the order MPI_Comm_split prescribes for the keys the code passes (offset resp. node) *)
+Theorem C14_grid_key_order : forall nn ppn, 0 < ppn -> forall r, r < nn * ppn ->
+  StronglySorted (key_lt (fun q => q mod ppn)) (intra (attach_explicit (nn * ppn) ppn r)) /\
+  StronglySorted (key_lt (fun q => q / ppn)) (inter (attach_explicit (nn * ppn) ppn r)).
+Proof. exact explicit_key_order. Qed.
+Print Assumptions C14_grid_key_order.
+
+(* MPI_Comm_split_type reporting blocks of ppn consecutive ranks gives the same communicators *)
+Theorem C14_grid_split_type_contiguous : forall nn ppn, 0 < ppn -> forall r, r < nn * ppn ->
+  attach_split_type (nn * ppn) (fun q => q / ppn) r = Some (attach_explicit (nn * ppn) ppn r).
+Proof. exact split_type_contiguous. Qed.
+Print Assumptions C14_grid_split_type_contiguous.
+
+(* ---- the node grid for ANY node classes reported by the MPI library ------------------------------------------------ *)
+(* (node, intranode rank) identifies a rank; the intranode rank is below the node size; every cell is taken *)
+Theorem C14_grid_classes : forall P nd,
+  (forall r r', r < P -> r' < P -> nd r = nd r' -> intrarank P nd r = intrarank P nd r' -> r = r') /\
+  (forall r, r < P -> intrarank P nd r < length (members P nd (nd r))) /\
+  (forall k j, j < length (members P nd k) -> exists r, r < P /\ nd r = k /\ intrarank P nd r = j).
+Proof. intros; split; [exact (grid_cell_unique P nd)|split; [exact (intrarank_bound P nd)|exact (grid_cell_exists P nd)]]. Qed.
+Print Assumptions C14_grid_classes.
+
+(* ---- detach releases both communicators ---------------------------------------------------------------------------- *)
+Theorem C14_attach_then_get : forall s, attr s = None -> forall explicit,
+  let s' := l_attach explicit true s in
+  l_get s' = Some (next_id s, S (next_id s)) /\ live s' = S (next_id s) :: next_id s :: live s.
+Proof. exact attach_ok. Qed.
+Print Assumptions C14_attach_then_get.
+
+Theorem C14_detach_frees_both : forall s, (forall c, In c (live s) -> c < next_id s) -> attr s = None ->
+  forall explicit equal, let s' := l_detach (l_attach explicit equal s) in live s' = live s /\ l_get s' = None.
+Proof. exact attach_detach. Qed.
+Print Assumptions C14_detach_frees_both.
+
+(* node sizes differ: nothing is attached, the one communicator created is freed at once *)
+Theorem C14_attach_unequal_sizes : forall s, (forall c, In c (live s) -> c < next_id s) -> attr s = None ->
+  let s' := l_attach false false s in live s' = live s /\ l_get s' = None.
+Proof. exact attach_unequal. Qed.
+Print Assumptions C14_attach_unequal_sizes.
+
+(* ---- what the arrays hold: every flavour, every reading rank, every P = nn * ppn, every count and item type --------- *)
+Theorem C14_allgather_rank_order : forall nn ppn, 0 < ppn -> forall contrib f r, r < nn * ppn ->
+  shmem_allgather (nn * ppn) (comms_explicit nn ppn) f contrib r = rank_order (nn * ppn) contrib.
+Proof. exact allgather_explicit. Qed.
+Print Assumptions C14_allgather_rank_order.
+
+(* wr = the wrap of the C item type; the contributed items are values of that type *)
+Theorem C14_prefix : forall wr nn ppn count, 0 < ppn -> forall contrib,
+  (forall q, q < nn * ppn -> length (contrib q) = count) ->
+  (forall q x, q < nn * ppn -> In x (contrib q) -> wr x = x) ->
+  forall f r, r < nn * ppn ->
+  shmem_prefix wr (nn * ppn) (comms_explicit nn ppn) count f contrib r = prefix_spec wr (nn * ppn) count contrib.
+Proof. exact prefix_explicit. Qed.
+Print Assumptions C14_prefix.
+
+(* ... and prefix_spec is (0, s0, s0+s1, ...) with the mathematical sums wrapped once, for each supported integer type *)
+Theorem C14_prefix_is_wrapped_sums : forall d nn ppn count contrib,
+  prefix_spec (wrap_of d) (nn * ppn) count contrib
+  = concat (repeat 0%Z count :: map (map (wrap_of d)) (sum_rows (repeat 0%Z count) (map contrib (seq 0 (nn * ppn))))).
+Proof.
+  intros d nn ppn count contrib.
+  exact (prefix_spec_sums (wrap_of d) nn ppn count contrib (wrap_of_hom d)
+           ltac:(do 7 (destruct d as [|d]; [reflexivity|]); reflexivity)).
+Qed.
+Print Assumptions C14_prefix_is_wrapped_sums.
+
+(* a shared copy replicates the source on all ranks *)
+Theorem C14_memcpy : forall nn ppn f (src : nat -> list Z) r, (forall q q', src q = src q') ->
+  shmem_memcpy (comms_explicit nn ppn) f src r = src r.
+Proof. exact memcpy_explicit. Qed.
+Print Assumptions C14_memcpy.
+
+(* nothing attached: every flavour behaves like the basic one *)
+Theorem C14_unattached : forall wr P count contrib f r,
+  shmem_allgather P comms_none f contrib r = rank_order P contrib /\
+  shmem_prefix wr P comms_none count f contrib r = prefix_spec wr P count contrib /\
+  write_start comms_none f r = true.
+Proof.
+  intros; split; [exact (allgather_unattached P contrib f r)|split;
+    [exact (prefix_unattached wr P count contrib f r)|exact (write_start_unattached f r)]].
+Qed.
+Print Assumptions C14_unattached.
+
+(* ---- who is granted write access ----------------------------------------------------------------------------------- *)
+Theorem C14_write_start : forall nn ppn, 0 < ppn -> forall f r, r < nn * ppn ->
+  write_start (comms_explicit nn ppn) f r = if is_shared f then (r mod ppn =? 0) else true.
+Proof. exact write_start_explicit. Qed.
+Print Assumptions C14_write_start.
+
+(* exactly one rank per node for the window flavours: the first member of the node - for explicit nodes ... *)
+Theorem C14_one_writer_per_node : forall nn ppn f r, 0 < ppn -> r < nn * ppn -> is_shared f = true ->
+  let row := members (nn * ppn) (fun q => q / ppn) (r / ppn) in
+  In (hd r row) row /\ forall q, In q row -> (write_start (comms_explicit nn ppn) f q = true <-> q = hd r row).
+Proof. exact one_writer_explicit. Qed.
+Print Assumptions C14_one_writer_per_node.
+
+(* ... and for any equally sized node classes reported by MPI_Comm_split_type *)
+Theorem C14_one_writer_per_node_classes : forall P nd f r, equal_sizes P nd = true -> r < P -> is_shared f = true ->
+  let row := members P nd (nd r) in
+  In (hd r row) row /\ forall q, In q row -> (write_start (attach_split_type P nd) f q = true <-> q = hd r row).
+Proof. exact one_writer_split_type. Qed.
+Print Assumptions C14_one_writer_per_node_classes.
+
+(* every rank for the unshared flavours *)
+Theorem C14_all_write_unshared : forall comms f r, is_shared f = false -> write_start comms f r = true.
+Proof. exact all_write_unshared. Qed.
+Print Assumptions C14_all_write_unshared.
+
+(* ---- the write_start / write_end protocol of the window flavours, under every interleaving ----------------------- *)
+(* at any moment at most one rank of the node is between write_start and write_end with write access: intranode rank 0,
+   the only possible holder of the exclusive lock *)
+Theorem C14_protocol_one_writer : forall n v es s, prun n (pinit v) es = Some s ->
+  (forall i, ph s i = Writer -> i = 0) /\ (forall i, lk s i = ExclLock -> i = 0)
+  /\ (forall i j, ph s i = Writer -> ph s j = Writer -> i = j).
+Proof. exact one_writer. Qed.
+Print Assumptions C14_protocol_one_writer.
+
+Theorem C14_protocol_write_access : forall n s i s', pstep n s (WS i) = Some s' -> (ph s' i = Writer <-> i = 0).
+Proof. exact write_access. Qed.
+Print Assumptions C14_protocol_write_access.
+
+Theorem C14_protocol_only_writer_changes_array : forall n s e s', pstep n s e = Some s' -> mem s' <> mem s ->
+  exists i v, e = WR i v /\ ph s i = Writer.
+Proof. exact array_changes_only_by_writer. Qed.
+Print Assumptions C14_protocol_only_writer_changes_array.
+
+(* after write_end: a rank returns from its k-th write_end only after the writer has entered its k-th write_end, so
+   everything stored in rounds 1..k is in the array it then reads *)
+Theorem C14_protocol_written_data_visible : forall n v es s i s', 0 < n ->
+  prun n (pinit v) es = Some s -> pstep n s (WE_leave i) = Some s' ->
+  left_ s' i <= arrived s 0 /\ ph s' i = Reading /\ mem s' = mem s.
+Proof. exact leave_after_writer_end. Qed.
+Print Assumptions C14_protocol_written_data_visible.
+
+(* FULL-STRENGTH visibility (the array read after the k-th write_end holds the data of round k and nothing newer)
+   under the exact guard that excludes the recorded finding F-C14b: the writer enters write_start only after every
+   rank of the node has returned from the previous write_end *)
+Theorem C14_protocol_rounds_do_not_overlap : forall n v es s i s', 0 < n ->
+  prun_sync n (pinit v) es = Some s -> pstep_sync n s (WE_leave i) = Some s' ->
+  wround s' <= left_ s' i /\ left_ s' i <= arrived s' 0 /\ ph s' 0 <> Writer /\ mem s' = mem s.
+Proof. exact synced_rounds_visible. Qed.
+Print Assumptions C14_protocol_rounds_do_not_overlap.
+
+(* ---- recorded findings: the unguarded statements are false of the faithful model ------------------------------------ *)
+(* F-C14a: equally sized nodes that are not contiguous in rank order (round robin), window flavour: node-major order *)
+Theorem C14_window_allgather_roundrobin_refuted :
+  equal_sizes 4 rr_nd = true /\
+  shmem_allgather 4 rr_comms Window rr_contrib 0 = [0; 2; 1; 3]%Z /\
+  shmem_allgather 4 rr_comms Window rr_contrib 0 <> rank_order 4 rr_contrib /\
+  shmem_prefix s32 4 rr_comms 1 Window rr_contrib 3 = [0; 0; 2; 3; 6]%Z /\
+  shmem_prefix s32 4 rr_comms 1 Window rr_contrib 3 <> prefix_spec s32 4 1 rr_contrib /\
+  shmem_allgather 4 rr_comms Basic rr_contrib 0 = rank_order 4 rr_contrib.
+Proof. exact roundrobin_refuted. Qed.
+Print Assumptions C14_window_allgather_roundrobin_refuted.
+
+(* F-C14b: two write rounds back to back: rank 1 returns from its FIRST write_end (left_ = 1) and finds the data of
+   round 2 (wround = 2, mem = 22); the synchronised convention rejects this schedule *)
+Theorem C14_back_to_back_rounds_refuted :
+  option_map (fun s => (left_ s 1, wround s, mem s, conflict s)) (prun 2 (pinit 0%Z) b2b_events) = Some (1, 2, 22%Z, true)
+  /\ prun_sync 2 (pinit 0%Z) b2b_events = None.
+Proof. exact back_to_back_refuted. Qed.
+Print Assumptions C14_back_to_back_rounds_refuted.
+
+(* the MPI_MODE_NOCHECK assertion of the exclusive lock is false already in the first round *)
+Theorem C14_nocheck_conflict_reachable : option_map conflict (prun_sync 2 (pinit 0%Z) [WS 0]) = Some true.
+Proof. exact nocheck_conflict_reachable. Qed.
+Print Assumptions C14_nocheck_conflict_reachable.
+
+(* ---- the hypotheses are satisfiable ---------------------------------------------------------------------------------- *)
+Example C14_ex_grid : grid_position (attach_explicit 6 2 3) 3 = (1, 2, 1, 3).
 Proof. exact (eq_refl _). Qed.
-Print Assumptions C14_grid_example.
+
+Example C14_ex_results :
+  let contrib := fun q => [Z.of_nat q + 100; 2147483647 - Z.of_nat q]%Z in
+  shmem_allgather 4 (comms_explicit 2 2) WindowPrescan contrib 3 = [100; 2147483647; 101; 2147483646; 102; 2147483645; 103; 2147483644]%Z
+  /\ shmem_prefix s32 4 (comms_explicit 2 2) 2 WindowPrescan contrib 1
+     = [0; 0; 100; 2147483647; 201; -3; 303; 2147483642; 406; -10]%Z
+  /\ shmem_prefix s32 4 (comms_explicit 2 2) 2 Basic contrib 2 = shmem_prefix s32 4 (comms_explicit 2 2) 2 WindowPrescan contrib 1
+  /\ map (write_start (comms_explicit 2 2) Window) [0; 1; 2; 3] = [true; false; true; false].
+Proof. vm_compute. repeat split. Qed.
+
+Example C14_ex_synced_rounds :
+  option_map (fun s => (left_ s 0, left_ s 1, wround s, mem s))
+    (prun_sync 2 (pinit 0%Z) [WS 1; WS 0; WR 0 11%Z; WE_arrive 1; WE_arrive 0; WE_leave 1; WE_leave 0;
+                              WS 0; WR 0 22%Z; WS 1; WE_arrive 0; WE_arrive 1; WE_leave 0; WE_leave 1])
+  = Some (2, 2, 2, 22%Z).
+Proof. exact synced_two_rounds. Qed.
